@@ -1,5 +1,6 @@
 import Driver.Sexp
 import Pcore.Model.ValueEq
+import Pcore.Model.ValueEqCache
 /-! Driver ops for C07: `eq x y`, `eq3 x y z`, `key x`, `get H k`, `unique xs` (value syntax in harness/c07). -/
 namespace C07
 open Sx Pcore.ValueEq
@@ -206,7 +207,16 @@ def exec : List Sexp → String
     | some (.hash es), some kv =>
       -- `hv.get(px.ToKey(key))`: the argument is keyed first, then the index is built from every entry key
       if !(keyable kv && es.all fun e => keyable e.1) then invalidKey
-      else match hashGet es kv with | some v => "some " ++ valStr v | none => "none"
+      -- through the index model (`valueIndex`, asked once before and once after the index was forced: the two answers are printed
+      -- only when they agree — they always do: C07_get_cache_independent)
+      else
+        let h : CHash := { entries := es }
+        let a1 := (h.get kv).2
+        let a2 := (h.force.get kv).2
+        match a1, a2 with
+        | some v, some w => if valStr v == valStr w then "some " ++ valStr v else "cache-dependent"
+        | none, none => "none"
+        | _, _ => "cache-dependent"
     | _, _ => "bad-op"
   | [.atom "unique", xs] =>
     match valOf xs with
